@@ -289,6 +289,150 @@ def run(res, tier, build_ok):
         # the schedule of the Lean witness: T0 constructs, T1 constructs and builds, T0 builds
         reqs.append(("isorun c:%s:%d,c:%s:%d,b:%s,b:%s,d:%s" % (a["name"], a["L"], b["name"], b["L"], a["name"], b["name"], a["name"]),
                      "ok -,-,%s/%d,%s/%d,%s" % (a["name"], a["L"], b["name"], b["L"], a["name"])))
+    # ---- commands that compose a parameter list (MODE SELECT 6/10, PERSISTENT RESERVE OUT, EXTENDED COPY): several
+    #      argument variants per class, valid and rejected ones.  What a construction yields (CDB + data-out) or the
+    #      error it is refused with must be what the same construction yields in a process of its own, after any
+    #      history of other constructions (including refused ones) and when another thread is parked inside one.
+    import copy
+    import importlib
+    import os
+    from props import c05
+    g = c05.G(common.SEED * 7919 + 909)
+    try:
+        g.out_blocks()
+        m = lambda n: importlib.import_module("pyscsi.pyscsi." + n)
+        MS6, MS10 = m("scsi_cdb_modesense6").ModeSelect6, m("scsi_cdb_modesense10").ModeSelect10
+        PRO = m("scsi_cdb_persistentreserveout").PersistentReserveOut
+        X4, X5 = m("scsi_cdb_extended_copy_spc4").ExtendedCopy, m("scsi_cdb_extended_copy_spc5").ExtendedCopy
+        spc = sets["spc"]
+        opp = spc.PERSISTENT_RESERVE_OUT
+        variants = []
+        for ten in (False, True):
+            for _ in range(2):
+                d, _e = g.mode_list(ten)
+                variants.append(("modeselect%d" % (10 if ten else 6), MS10 if ten else MS6, (spc.MODE_SELECT_10 if ten else spc.MODE_SELECT_6, d), {"pf": 1, "sp": 0}))
+        seen_kinds = {}
+        for _ in range(60):
+            kindp, d, _e = g.prout()
+            if seen_kinds.get(kindp, 0) >= 2:
+                continue
+            seen_kinds[kindp] = seen_kinds.get(kindp, 0) + 1
+            sa = {"basic": opp.serviceaction.REGISTER, "spec": opp.serviceaction.REGISTER, "ram": opp.serviceaction.REGISTER_AND_MOVE}[kindp]
+            d = dict(d)
+            if kindp == "basic":
+                d.update({"aptpl": 1, "all_tg_pt": 1})
+            variants.append(("prout-" + kindp, PRO, (opp, sa), dict(d, scope=1, pr_type=3)))
+        base_ram = {"reservation_key": 5, "service_action_reservation_key": 6, "aptpl": 1, "unreg": 1, "relative_target_port_id": 2, "scope": 0, "pr_type": 1}
+        variants.append(("prout-ram-rejected-iscsi", PRO, (opp, opp.serviceaction.REGISTER_AND_MOVE),
+                         dict(base_ram, transport_id={"tpid_format": 1, "protocol_id": 5, "iscsi_name": "iqn.2001-04.com.example:x"})))
+        variants.append(("prout-ram-rejected-fcp", PRO, (opp, opp.serviceaction.REGISTER_AND_MOVE),
+                         dict(base_ram, transport_id={"tpid_format": 0, "protocol_id": 0})))
+        variants.append(("prout-spec-rejected", PRO, (opp, opp.serviceaction.REGISTER),
+                         {"reservation_key": 1, "service_action_reservation_key": 2, "spec_i_pt": 1, "aptpl": 1, "scope": 0, "pr_type": 1,
+                          "transport_ids": [{"tpid_format": 0, "protocol_id": 6, "sas_address": b"\x01" * 8}, {"tpid_format": 0, "protocol_id": 4}]}))
+        for five in (False, True):
+            for _ in range(2):
+                kw, _e, _m = g.xcopy(five)
+                variants.append(("xcopy%d" % (5 if five else 4), X5 if five else X4, (spc.EXTENDED_COPY,), kw))
+            kw, _e, _m = g.xcopy(five)
+            kw = copy.deepcopy(kw)
+            kw["segment_descriptor_list"] = list(kw["segment_descriptor_list"]) + [{"descriptor_type_code": 0x02, "bogus_key": 1}]
+            variants.append(("xcopy%d-rejected-key" % (5 if five else 4), X5 if five else X4, (spc.EXTENDED_COPY,), kw))
+            kw = copy.deepcopy(kw)
+            kw["segment_descriptor_list"] = [{"descriptor_type_code": 0x55}]
+            variants.append(("xcopy%d-rejected-type" % (5 if five else 4), X5 if five else X4, (spc.EXTENDED_COPY,), kw))
+    finally:
+        g.close()
+
+    def construct(v):
+        try:
+            inst = v[1](*v[2], **copy.deepcopy(v[3]))
+            return ("ok", bytes(inst.cdb), bytes(inst.dataout), len(inst.datain))
+        except Exception as e:
+            return ("raises", type(e).__name__)
+
+    def in_own_process(v):
+        r, w = os.pipe()
+        pid = os.fork()
+        if pid == 0:
+            try:
+                os.close(r)
+                os.write(w, pickle.dumps(construct(v)))
+            finally:
+                os._exit(0)
+        os.close(w)
+        buf = b""
+        while True:
+            chunk = os.read(r, 1 << 16)
+            if not chunk:
+                break
+            buf += chunk
+        os.close(r)
+        os.waitpid(pid, 0)
+        return pickle.loads(buf)
+
+    solo = [in_own_process(v) for v in variants]       # before this process has built any of these classes
+    for v, so in zip(variants, solo):
+        res.count("parameter-list variant %s: %s" % (v[0], so[0] if so[0] == "ok" else so[1]))
+    sofar = []
+    for it in range(120 * scale):
+        idx = [rng.randrange(len(variants)) for _ in range(rng.randint(2, 6))]
+        hist = [variants[i][0] for i in idx]
+        res.case(("paramlist history", tuple(idx)), {"history": hist} if it < 2 else None)
+        res.count("parameter-list histories")
+        for pos, i in enumerate(idx):
+            got = construct(variants[i])
+            sofar.append(variants[i][0])
+            if got != solo[i]:
+                res.violation("paramlist history %s" % variants[i][0].split("-rejected")[0],
+                              "after building (most recent last) %s: %s yields %s, in a process of its own %s" % (
+                                  " ; ".join(sofar[-9:-1]) or "nothing", variants[i][0], str(got)[:160], str(solo[i])[:160]),
+                              {"constructions_in_this_process": sofar[-40:], "got": str(got)[:600], "solo": str(solo[i])[:600]})
+                break
+        else:
+            continue
+        break
+    # one preemption: thread 0 parked after i traced lines inside the list builders, thread 1 builds, thread 0 finishes
+    files = ("scsi_cdb_persistentreserveout.py", "scsi_cdb_persistentreservein.py", "scsi_cdb_modesense6.py", "scsi_cdb_modesense10.py",
+             "scsi_cdb_extended_copy_spc4.py", "scsi_cdb_extended_copy_spc5.py")
+    byname = {}
+    for i, v in enumerate(variants):
+        byname.setdefault(v[0], i)
+    tpairs = [("prout-ram", "prout-basic"), ("prout-ram-rejected-iscsi", "prout-basic"), ("prout-spec", "prout-ram"), ("prout-basic", "prout-spec"),
+              ("modeselect6", "modeselect10"), ("xcopy4", "xcopy5"), ("xcopy5-rejected-key", "xcopy5")]
+    stop = False
+    for an, bn in tpairs:
+        if an not in byname or bn not in byname or stop:
+            continue
+        ia, ib = byname[an], byname[bn]
+        if an.split("-")[0] == bn.split("-")[0]:
+            ib = max(i for i, v in enumerate(variants) if v[0] == bn)      # a different dictionary of the same kind
+        s0 = Sched(files)
+        _, st = s0.run({0: lambda: construct(variants[ia])}, lambda steps, alive: 0)
+        na = st.get(0, 0)
+        stride = 1 if (scale > 1 or na <= 90) else (na // 90 + 1)
+        for i in range(0, na + 1, stride):
+            sch = Sched(files)
+
+            def pick(steps, alive, i=i):
+                if 0 in alive and steps.get(0, 0) < i:
+                    return 0
+                if 1 in alive:
+                    return 1
+                return 0
+            results, _ = sch.run({0: lambda: construct(variants[ia]), 1: lambda: construct(variants[ib])}, pick)
+            res.case(("paramlist threads", an, bn, i), None)
+            res.count("parameter-list thread schedules")
+            for tid, iv in ((0, ia), (1, ib)):
+                if results.get(tid) != ("ok", solo[iv]):
+                    res.violation("paramlist threads %s|%s" % (an.split("-rejected")[0], bn.split("-rejected")[0]),
+                                  "thread building %s parked after %d traced lines while another thread builds %s: thread %d got %s, in a process of its own %s" % (
+                                      an, i, bn, tid, str(results.get(tid))[:160], str(solo[iv])[:160]),
+                                  {"variants": [an, bn], "preempt_after": i, "thread": tid, "got": str(results.get(tid))[:600], "solo": str(solo[iv])[:600]})
+                    stop = True
+                    break
+            if stop:
+                break
     reps = drv.batch([r[0] for r in reqs])
     for (line, impl), rep in zip(reqs, reps):
         if rep != impl:
